@@ -201,16 +201,18 @@ func Run(run *kernel.Run, p Params) {
 
 	// ---- solo reference: the same operations, one at a time, on an
 	// independent clone, counting yield points
-	var soloSteps uint64
-	p.SetHook(func(uint32) { soloSteps++ })
+	// (the counter is bumped through a //go:norace method: a library that
+	// runs goroutines of its own passes yield points on them too)
+	var soloCtr stepCounter
+	p.SetHook(soloCtr.inc)
 	solo := make([][]string, nTasks)
 	soloOpSteps := make([][]uint64, nTasks)
 	for ti := range ops {
 		c := &ctx{}
 		for _, o := range ops[ti] {
-			before := soloSteps
+			before := soloCtr.get()
 			solo[ti] = append(solo[ti], execOp(fxRef, o, c))
-			soloOpSteps[ti] = append(soloOpSteps[ti], soloSteps-before)
+			soloOpSteps[ti] = append(soloOpSteps[ti], soloCtr.get()-before)
 		}
 	}
 	p.SetHook(nil)
@@ -297,3 +299,14 @@ func hitBitmap(h []uint32) string {
 	}
 	return kernel.Hex(b)
 }
+
+// stepCounter counts yield points in the solo phase.
+type stepCounter struct{ n uint64 }
+
+//go:norace
+//go:noinline
+func (c *stepCounter) inc(uint32) { c.n++ }
+
+//go:norace
+//go:noinline
+func (c *stepCounter) get() uint64 { return c.n }
